@@ -1,4 +1,5 @@
 import VarmqVerif.Proofs.Ack
+import VarmqVerif.Proofs.Job
 /-!
   C11 — acknowledge only after processing, at most once: no accepted job lost in a crash.
   Model `Ack`: the adapter's pending / unacknowledged / acknowledged sets and the library's calls.
@@ -25,5 +26,11 @@ theorem unprocessed_not_acked {s : State} {x : Nat} (h : Reach s) (hx : x ∉ s.
 theorem recovery_keeps_all {s s' : State} (h : Reach s) (hst : step s .recover = .ok s') :
     (∀ x, x ∈ s'.pending ↔ x ∈ s.pending ∨ x ∈ s.unacked) ∧ s'.unacked = [] ∧ s'.acked = s.acked :=
   Ack.recover_keeps_all h hst
+
+/-- the library side of "only after processing": Acknowledge is called from job.Close() by the one goroutine
+    that won the tryClose CAS, i.e. on a Closed job whose worker function is not running (model `Job`, where
+    the adapter's Acknowledge call is the event `ack`) — this is the guard the `Ack` model checks on every trace -/
+theorem ack_only_by_closer {s s' : Job.State} {g j : Nat} (h : Job.Reach s) (hst : Job.step s (.ack g j) = .ok s') :
+    (s.jobs j).st = Job.closed ∧ (s.jobs j).exited = (s.jobs j).entered ∧ (s.jobs j).acks = 0 := Job.ack_by_closer h hst
 
 end VarmqVerif.Props.C11
